@@ -13,6 +13,7 @@ correspondence check exercises them on the real code (every single-bit flip, eve
 nonce collection).  `substitution_is_not_detected` states what the read path does NOT do (known finding).
 -/
 import Rustic.Lemmas.Codec
+import Rustic.Lemmas.Pack
 namespace Rustic.Props.C04
 open Rustic.Codec
 
@@ -145,6 +146,28 @@ theorem stored_file_is_ciphertext (ae : AE) (z : Zstd) (hash : Bytes → Nat) (z
   · unfold readEncryptedFull
     simp only [Store.get, List.find?_cons, beq_self_eq_true, Option.map_some]
     rw [file_codec_roundtrip ae z zstdOn k nonce data hn hpre]
+
+/-- (7') A pack file is ciphertext end to end, except for the four bytes of the (public) header length: when every blob
+handed to the packer is the output of the blob codec (`process_data`) and the header is encrypted (`RawPacker::save`),
+the file is a concatenation of `encrypt` messages followed by the `u32` length of the last one. -/
+theorem pack_file_is_ciphertexts (ae : AE) (z : Zstd) (zstdOn : Bool) (k : ae.Key) (hdrNonce : Bytes)
+    (t : Rustic.Pack.BlobType) (blobs : List (Bytes × Bytes × Nat)) :
+    let adds : List (Bytes × Nat × Option Nat) := blobs.map fun b =>
+      ((encodeBlob ae z zstdOn k b.1 b.2.1).1, b.2.2, (encodeBlob ae z zstdOn k b.1 b.2.1).2.2)
+    let p := (Rustic.Pack.Packer.new t).run adds
+    ∃ chunks : List Bytes,
+      (p.finish (encrypt ae k hdrNonce)).1 =
+        chunks.flatten ++ (encrypt ae k hdrNonce p.headerBytes ++ Rustic.Pack.le32 (encrypt ae k hdrNonce p.headerBytes).length) ∧
+      ∀ c ∈ chunks, ∃ nonce payload, c = encrypt ae k nonce payload := by
+  intro adds p
+  refine ⟨p.file, Rustic.Pack.finish_file _ p, ?_⟩
+  intro c hc
+  rcases Rustic.Pack.Packer.run_file_subset (Rustic.Pack.Packer.new t) adds c hc with h | ⟨a, ha, rfl⟩
+  · simp [Rustic.Pack.Packer.new] at h
+  · obtain ⟨b, _, rfl⟩ := List.mem_map.mp ha
+    cases zstdOn
+    · exact ⟨b.1, b.2.1, by simp [encodeBlob]⟩
+    · exact ⟨b.1, z.compress b.2.1, by simp [encodeBlob]⟩
 
 /-- (8) Substitution: what a verifying read path would guarantee … -/
 theorem verified_read_detects_substitution (ae : AE) (z : Zstd) (hash : Bytes → Nat) (k : ae.Key)
